@@ -96,6 +96,10 @@ func inCacheSet(fn string) bool {
 	return strings.Contains(fn, "MemoryCache") && strings.HasSuffix(fn, ".Set")
 }
 
+// inCacheRead matches the freshness test of a cache read (utils.valueExpired, called by Get and Has after the
+// entry was looked up and the lock released): the reader reads the clock there.
+func inCacheRead(fn string) bool { return strings.Contains(fn, "valueExpired") }
+
 func (c *vclock) Sleep(d time.Duration) { <-c.After(d) }
 
 func (c *vclock) After(d time.Duration) <-chan time.Time {
